@@ -261,32 +261,44 @@ theorem C20_block_data_index_range_fails :
     ¬ ∀ c ∈ (⟨1, 8, 0, 2⟩ : Dims).canon, (Dims.ofCtor 1 2 0 1).allocated (blockKey ⟨1, 8, 0, 2⟩ (Dims.ofCtor 1 2 0 1) c) = true := by
   decide
 
-/-- **Not proved, and false of the code as it stands for an odd number ≥ 5 of rings** (see `C20_geo_mirror_condition_fails`
-and the `KNOWN-CANDIDATE geo-fixed-point…` line of the oracle): geometric factors that are an ML estimate are reproduced by
-`iterate_geo_norm` from data generated with them. -/
+/-- **Not proved** (checked strictly by the oracle of `harness/c20_mlnorm.cxx` on every generated configuration, odd and even
+ring counts, with and without gaps): geometric factors that are an ML estimate are reproduced by `iterate_geo_norm` from data
+generated with them.  What is missing for a proof: the class structure of the geometric factors — that the set of fan entries
+summed into one geometric factor by `makeGeo` (block translations of the four mirror images, filtered by `isInData`) is exactly
+the set of entries that `geoWork` fills from that factor or from a factor with the same class, i.e. that these sets are the
+orbits of one group action on the stored entries.  Only the parts around it are theorems: the mirror condition
+(`C20_geo_mirror_condition`), the ratio (`C20_class_ratio_fixed_point`), apply/un-apply (`C20_apply_unapply_id_geo`,
+`C20_apply_block_geo_factor`).  (Arbitrary geometric factors are *not* a fixed point: several of them describe one class and
+`geoWork` lets the last one win — hence the statement is about an ML estimate.) -/
 def C20_geo_fixed_point_statement : Prop :=
   ∀ (d : Dims) (g : GeoDims) (model data : Fan ℚ), d.WF → (∀ c ∈ d.canon, 0 < model.get (d.key c) ∧ 0 < data.get (d.key c)) →
     let ghat := iterateGeo d g (makeGeo d g data) model
     ∀ k, (iterateGeo d g (makeGeo d g (applyGeo d g model ghat true)) model).get k = ghat.get k
 
-/-! ### the condition of `make_geo_data` that breaks the geometric fixed point -/
+/-! ### the mirror condition of `make_geo_data` -/
 
-/-- `make_geo_data` adds the two axially mirrored LORs only `if (ra != mra && rb != mrb)`.  The LOR is its own axial mirror
-iff `ra == mra && rb == mrb`; the condition as written also drops the mirrored terms when exactly one of the two rings is the
-central ring — e.g. 5 rings, LOR between rings 1 and 2 (mirror: rings 3 and 2). -/
-theorem C20_geo_mirror_condition_fails :
-    ¬ ∀ (d : Dims) (ra rb : Int), 0 ≤ ra → ra ≤ rb → rb < d.R →
-        (d.fourTerms ra rb = false → d.R - 1 - ra = ra ∧ d.R - 1 - rb = rb) := by
-  intro h
-  have := h ⟨5, 8, 2, 2⟩ 1 2 (by decide) (by decide) (by decide) (by decide)
-  exact absurd this (by decide)
-
-/-- With an even number of rings there is no central ring and the mirrored terms are always added. -/
-theorem C20_geo_mirror_condition_partial (d : Dims) (ra rb : Int) (heven : d.R = 2 * Int.tdiv d.R 2) : d.fourTerms ra rb = true := by
+/-- `make_geo_data` adds the two axially mirrored LORs `if (ra != mra || rb != mrb)`: they are left out exactly when the LOR is
+its own axial mirror (both rings are the central ring), for every number of rings and every ring pair — so no LOR is dropped
+and none is counted twice. -/
+theorem C20_geo_mirror_condition (d : Dims) (ra rb : Int) :
+    d.fourTerms ra rb = false ↔ (d.R - 1 - ra = ra ∧ d.R - 1 - rb = rb) := by
   unfold Dims.fourTerms
-  have h1 : ra ≠ d.R - 1 - ra := by omega
-  have h2 : rb ≠ d.R - 1 - rb := by omega
-  simp [h1, h2]
+  simp only [Bool.or_eq_false_iff, bne_eq_false_iff_eq]
+  constructor
+  · rintro ⟨h1, h2⟩; exact ⟨h1.symm, h2.symm⟩
+  · rintro ⟨h1, h2⟩; exact ⟨h1.symm, h2.symm⟩
+
+/-- Regression witness for the code before commit 58079aa5c (`&&` instead of `||`, `Dims.fourTermsOld`): it also dropped the
+mirrored terms when exactly one ring is the central ring — 5 rings, LOR between rings 1 and 2 (mirror: rings 3 and 2) — which
+broke the geometric fixed point for odd ring counts ≥ 5; the present condition does not. -/
+theorem C20_geo_mirror_condition_old_code_fails :
+    ¬ (∀ (d : Dims) (ra rb : Int), d.fourTermsOld ra rb = false → d.R - 1 - ra = ra ∧ d.R - 1 - rb = rb) ∧
+      (⟨5, 8, 2, 2⟩ : Dims).fourTerms 1 2 = true := by
+  refine ⟨fun h => ?_, by decide⟩
+  exact absurd (h ⟨5, 8, 2, 2⟩ 1 2 (by decide)) (by decide)
+
+example : (⟨5, 8, 2, 2⟩ : Dims).fourTerms 2 2 = false ∧ (⟨5, 8, 2, 2⟩ : Dims).fourTerms 2 3 = true ∧
+    (⟨4, 8, 2, 2⟩ : Dims).fourTerms 1 2 = true := by decide
 
 /-! ## 6. The efficiency iteration descends -/
 
